@@ -9,8 +9,15 @@ use std::cell::RefCell;
 use std::rc::Rc;
 
 pub fn stop_case(epochs: usize, tol: usize, with_validation: bool) -> Case {
+    stop_case_th(epochs, tol, with_validation, Th::Real)
+}
+
+/// `th` = Float32: the trajectory ranges over every single-precision value except NaN — infinite losses (an overflowing
+/// objective) included, where `a - b` is NaN although `a` and `b` compare fine. NaN losses are outside the claim: "strictly
+/// increased" is not defined for them.
+pub fn stop_case_th(epochs: usize, tol: usize, with_validation: bool, th: Th) -> Case {
     Case {
-        id: format!("C13/epochs{}/tolerance{}/{}", epochs, tol, if with_validation { "validation" } else { "no-validation" }),
+        id: format!("C13/epochs{}/tolerance{}/{}{}", epochs, tol, if with_validation { "validation" } else { "no-validation" }, if th == Th::Fp { "/floats-incl-inf" } else { "" }),
         property: "C13",
         family: "Network::learn (early stopping)",
         class: if with_validation { "validation".into() } else { "no-validation".into() },
@@ -18,6 +25,9 @@ pub fn stop_case(epochs: usize, tol: usize, with_validation: bool) -> Case {
         max_paths: 1 << 14,
         run: Box::new(move |ctx| {
             let mut net = build_net(Shape::Single(2), &[L::Dense(1, Act::Linear, true)]);
+            if th == Th::Fp {
+                ctx.fp_bound = Some(f32::INFINITY);
+            }
             let xs = vec![t1(&vec![lit(0.5), lit(-0.25)]), t1(&vec![lit(1.0), lit(0.75)])];
             let ts = vec![t1(&vec![lit(0.25)]), t1(&vec![lit(-0.5)])];
             let (xr, tr): (Vec<&Tensor>, Vec<&Tensor>) = (xs.iter().collect(), ts.iter().collect());
@@ -57,8 +67,8 @@ pub fn stop_case(epochs: usize, tol: usize, with_validation: bool) -> Case {
             }
             ctx.fact("history-lengths", rvl.len() == ran && rva.len() == ran && ncalls == ran && ran >= 1 && ran <= epochs, format!("train {} val-loss {} val-acc {} validate-calls {}", ran, rvl.len(), rva.len(), ncalls));
             for e in 0..ran.min(rvl.len()).min(rva.len()) {
-                ctx.claim(&format!("val-loss-history[{}]", e), Th::Real, B::Eq(rvl[e], vl[e]));
-                ctx.claim(&format!("val-acc-history[{}]", e), Th::Real, B::Eq(rva[e], va[e]));
+                ctx.claim(&format!("val-loss-history[{}]", e), th, if th == Th::Fp { B::Same(rvl[e], vl[e]) } else { B::Eq(rvl[e], vl[e]) });
+                ctx.claim(&format!("val-acc-history[{}]", e), th, if th == Th::Fp { B::Same(rva[e], va[e]) } else { B::Eq(rva[e], va[e]) });
             }
             // stop(e) (1-based): more than `tol` epochs have run and the last `tol` recorded losses strictly increase
             let stop = |e: usize| -> B {
@@ -69,11 +79,11 @@ pub fn stop_case(epochs: usize, tol: usize, with_validation: bool) -> Case {
             };
             // "stops only if": stopping early at `ran` requires stop(ran)
             if ran < epochs {
-                ctx.claim("stops-only-if-increasing", Th::Real, stop(ran));
+                ctx.claim("stops-only-if-increasing", th, stop(ran));
             }
             // "never continues past": no earlier epoch satisfied the rule
             let earlier: Vec<B> = (1..ran).map(|e| stop(e).not()).collect();
-            ctx.claim("never-continues-past-first-stop", Th::Real, B::And(earlier));
+            ctx.claim("never-continues-past-first-stop", th, B::And(earlier));
         }),
     }
 }
@@ -106,6 +116,10 @@ pub fn cases(tier: Tier, _seed: u64) -> Vec<Case> {
             out.push(stop_case(e, tol, true));
         }
         out.push(stop_case(e, 2, false));
+    }
+    // the same contract over Float32 trajectories including +inf / -inf
+    for (e, tol) in if full { vec![(4usize, 2usize), (5, 2), (5, 3), (6, 3), (6, 4), (3, 1)] } else { vec![(4, 2), (5, 3), (3, 1)] } {
+        out.push(stop_case_th(e, tol, true, Th::Fp));
     }
     out.push(control_case());
     out
